@@ -140,6 +140,47 @@ func (c *Ctx) Account(res *RunResult, key string, nontrivial bool, sample any) {
 	for _, s := range res.Sub {
 		allIncs = append(allIncs, s.Incs...)
 	}
+	// faults and perturbations that are part of the plan itself (the disk seam reports its own through "fired")
+	plans := []*plan.Plan{res.Plan}
+	for _, s := range res.Sub {
+		plans = append(plans, s.Plan)
+	}
+	for _, p := range plans {
+		if p == nil {
+			continue
+		}
+		if p.Knobs.PreemptPermille > 0 {
+			c.faultCounts["runs_with_forced_preemption"]++
+		}
+		if p.Knobs.DelayPermille > 0 || len(p.Knobs.DelaySites) > 0 {
+			c.faultCounts["runs_with_site_delays"]++
+		}
+		if p.Knobs.MemBytes > 0 {
+			c.faultCounts["runs_with_small_memory_budget"]++
+		}
+		for ii, inc := range p.Incs {
+			graceful := false
+			for _, op := range inc.Ops {
+				switch op.Kind {
+				case "shutdown":
+					graceful = true
+				case "mem_pressure":
+					c.faultCounts["memory_pressure_eviction"]++
+				case "advance":
+					if op.DurMs >= 60_000 {
+						c.faultCounts["clock_jump_ge_1min"]++
+					}
+				}
+			}
+			if ii < len(p.Incs)-1 && len(inc.Faults) == 0 && c.Check.ID != "C07" && c.Check.ID != "C20" {
+				if graceful {
+					c.faultCounts["graceful_restart"]++
+				} else {
+					c.faultCounts["process_kill_at_op_boundary"]++
+				}
+			}
+		}
+	}
 	for _, ir := range allIncs {
 		end := ir.End()
 		if end == nil {
